@@ -817,13 +817,52 @@ func ruleL2(id string, pkgs ...string) func(p *Program, r *Reporter) {
 			}
 			ok, why := la.heldAt(a.fn, a.instr, guardOf[a.field], a.write, map[*ssa.Function]bool{}, 0)
 			if !ok && !a.write {
-				if ex, isEx := l2Exceptions[fname+"|"+lockClassName(a.field)]; isEx {
+				exKey := fname + "|" + lockClassName(a.field)
+				if _, isEx := l2Exceptions[exKey]; !isEx {
+					// the access moved into a private helper of the excepted functions: the
+					// exception follows it (its condition is still checked at the access)
+					var roots []*ssa.Function
+					var rootKeys []string
+					for k := range l2Exceptions {
+						if !strings.HasSuffix(k, "|"+lockClassName(a.field)) {
+							continue
+						}
+						for _, sf := range p.srcFuncs {
+							if funcName(sf)+"|"+lockClassName(a.field) == k {
+								roots = append(roots, sf)
+								rootKeys = append(rootKeys, k)
+							}
+						}
+					}
+					if len(roots) > 0 {
+						region := p.PrivateRegion(roots...)
+						top := a.fn
+						for top.Parent() != nil {
+							top = top.Parent()
+						}
+						isRoot := false
+						for _, rt := range roots {
+							if rt == top {
+								isRoot = true
+							}
+						}
+						if region[top] && !isRoot {
+							sort.Strings(rootKeys)
+							exKey = rootKeys[0]
+						}
+					}
+				}
+				if ex, isEx := l2Exceptions[exKey]; isEx {
 					// an exception that rests on another lock being held exclusively is only
 					// as good as that lock: check it at this very access
-					if req, has := l2ExceptionRequires[fname+"|"+lockClassName(a.field)]; has {
+					if req, has := l2ExceptionRequires[exKey]; has {
 						rl := p.Field(req[0], req[1], req[2])
 						st := la.facts[a.fn].before[a.instr]
-						if rl == nil || st == nil || !st.mustHeld(lockKey{rl, 'W'}) {
+						heldHere := rl != nil && st != nil && st.mustHeld(lockKey{rl, 'W'})
+						if !heldHere && rl != nil {
+							heldHere, _ = la.heldAt(a.fn, a.instr, rl, true, map[*ssa.Function]bool{}, 0)
+						}
+						if !heldHere {
 							r.Ob(id, fname, construct, a.instr.Pos(), false, true,
 								"read of "+lockClassName(a.field)+" without its own lock is only safe while "+req[0]+"."+req[1]+"."+req[2]+" is held exclusively, which is not the case here (shared or not held): concurrent calls interleave their read-modify-write of the same row")
 							continue
